@@ -2,6 +2,7 @@ import argparse
 import codecs
 import os
 import platform
+import struct
 import sys
 import traceback
 
@@ -127,12 +128,18 @@ def main_cli():
                 "path": output_file
             }
 
+            try:
+                output = file_formats[output_format](base, code)
+            except struct.error:
+                print(f"The program ({len(code)} bytes at address {base}) does not fit in the 16-bit fields of format '{output_format}'", file=sys.stderr)
+                sys.exit(1)
+
             if output_file in ("-", "-." + output_ext):
-                sys.stdout.buffer.write(file_formats[output_format](base, code))
+                sys.stdout.buffer.write(output)
             else:
                 try:
                     with open_device(output_file, "wb") as f:
-                        f.write(file_formats[output_format](base, code))
+                        f.write(output)
                 except IOError as ex:
                     print(f"Could not write to '{output_file}':\n{ex}", file=sys.stderr)
                     sys.exit(1)
